@@ -88,6 +88,13 @@ func reopen(dir string, opt bool, start *walpb.Snapshot, verify, keep bool) (out
 				out.Err = out.Err[:200]
 			}
 			out.W = nil
+			if w != nil {
+				// do not leak the file locks and the preallocation goroutine
+				func() {
+					defer func() { recover() }()
+					w.Close()
+				}()
+			}
 		}
 	}()
 	if !wal.Exist(dir) {
